@@ -2743,6 +2743,7 @@ func (pc *persistConn) readLoop() {
 			alive = alive &&
 				!pc.sawEOF &&
 				pc.wroteRequest() &&
+				pc.br.Buffered() == 0 && // bytes nobody asked for behind the message: never reuse
 				tryPutIdleConn(rc.treq)
 
 			if bodyWritable {
@@ -2819,6 +2820,7 @@ func (pc *persistConn) readLoop() {
 				bodyEOF &&
 				!pc.sawEOF &&
 				pc.wroteRequest() &&
+				pc.br.Buffered() == 0 && // bytes nobody asked for behind the message: never reuse
 				tryPutIdleConn(rc.treq)
 			if bodyEOF {
 				eofc <- struct{}{}
